@@ -31,6 +31,7 @@ POSITIONS = [("f_push_r", "wsq.push.readtop", ["r"]), ("f_push_w", "wsq.push.slo
              ("f_pop_rw", "wsq.pop.writetop", ["rw"]), ("f_take_rw", "wsq.take.writebase", ["rw"]),
              ("f_take_r", "wsq.take.readtop>wsq.take.slot", ["r"]), ("f_pass_w", "wsq.pass.slot", ["w"])]
 PINNED = "FCFFFCF"
+FREE_SIZES = (4, 8, 16)
 
 
 # ----------------------------------------------------------------------------------------------
@@ -59,6 +60,13 @@ def build(ctx, need_lib=True):
         lib = vlib.build_lib()
         b["lib"] = vlib.cc(os.path.join(ctx.dir, "c02_lib"), [lsrc], flags=vlib.lib_cflags() + ["-O0", "-g"],
                            libs=[lib, "-lpthread", "-ldl", "-lrt"])
+        b["steal"] = vlib.cc(os.path.join(ctx.dir, "c02_steal_prog"), [os.path.join(vlib.VERIF, "harness", "c02_steal_prog.c")],
+                             flags=vlib.lib_cflags() + ["-O1", "-g"], libs=[lib, "-lpthread", "-ldl", "-lrt"])
+    fsrc = os.path.join(vlib.VERIF, "harness", "c02_wsq_free.c")
+    for n in FREE_SIZES:
+        b["free%d" % n] = vlib.cc(os.path.join(ctx.dir, "c02_wsq_free_%d" % n), [fsrc],
+                                  flags=vlib.lib_cflags() + ["-O2", "-g", "-DMYTH_VERIF_QUEUE_SIZE=%d" % n],
+                                  libs=["-lpthread"])
     return b
 
 
@@ -687,6 +695,196 @@ def run_conc(ctx, b, cases):
     return impl, model
 
 
+# ----------------------------------------------------------------------------------------------
+# real concurrency: free-running unit harness (hardware validation, multiset oracle only)
+# ----------------------------------------------------------------------------------------------
+
+def free_configs(ctx, quick):
+    """(capacity, thieves, owner operations, trypass percent, repetitions)"""
+    if quick:
+        cfg = [(4, 1, 250000, 0, 1), (4, 2, 250000, 10, 1), (4, 3, 200000, 20, 1),
+               (8, 1, 250000, 0, 1), (8, 3, 200000, 15, 1), (16, 2, 250000, 10, 1)]
+    else:
+        cfg = [(n, k, 600000, p, 3) for n in FREE_SIZES for k in (1, 2, 3) for p in (0, 15)]
+    return [(n, k, ops, p, reps, ctx.rng.rng(1, 1 << 30)) for (n, k, ops, p, reps) in cfg]
+
+
+FREE_RE = re.compile(r"free size=(\d+) thieves=(\d+) seed=(\d+) ops=(\d+) inserted=(\d+) handed=(\d+) remaining=(\d+) "
+                     r"duplicates=(\d+) lost=(\d+) bogus=(\d+) pops_null=(\d+) takes_null=(\d+) pass_ok=(\d+) pass_fail=(\d+) "
+                     r"peeks=(\d+) bad_peek=(\d+) recentre_push=(\d+) recentre_put=(\d+)")
+
+
+def run_free_one(b, n, k, ops, pct, reps, seed, timeout=150):
+    rc, out = vlib.sh([b["free%d" % n], str(k), str(ops), str(seed), str(pct), str(reps)], timeout=timeout)
+    rows = []
+    for m in FREE_RE.finditer(out):
+        g = [int(x) for x in m.groups()]
+        rows.append({"size": g[0], "thieves": g[1], "seed": g[2], "operations": g[3], "items": g[4], "handed": g[5],
+                     "remaining": g[6], "duplicates": g[7], "lost": g[8], "bogus": g[9], "pops_null": g[10],
+                     "takes_null": g[11], "trypass_ok": g[12], "trypass_fail": g[13], "peeks": g[14],
+                     "recentre_push": g[16], "recentre_put": g[17]})
+    bad = None
+    if rc != 0 or len(rows) != reps:
+        bad = "free-running run did not complete (exit %d, %d of %d repetitions): %s" % (rc, len(rows), reps, out.strip()[-200:])
+    for r in rows:
+        if r["duplicates"] or r["lost"] or r["bogus"]:
+            bad = "free-running deque: %d item(s) handed out twice, %d lost, %d bogus of %d inserted (capacity %d, %d thieves)" % (
+                r["duplicates"], r["lost"], r["bogus"], r["items"], r["size"], r["thieves"])
+            break
+    return rows, bad
+
+
+def run_free(ctx, b, quick):
+    """several OS threads at once on the real deque; judged by the multiset oracle only"""
+    t0 = time.time()
+    rows, fails = [], []
+    cfgs = free_configs(ctx, quick)
+    for (n, k, ops, pct, reps, seed) in cfgs:
+        r, bad = run_free_one(b, n, k, ops, pct, reps, seed)
+        rows += r
+        if bad:
+            # not deterministic: how often does it reproduce?
+            again = 0
+            for j in range(5):
+                r2, bad2 = run_free_one(b, n, k, ops, pct, 1, seed + j)
+                again += 1 if bad2 else 0
+            fails.append({"what": bad, "free_case": {"size": n, "thieves": k, "owner_ops": ops, "trypass_percent": pct,
+                                                     "repetitions": reps, "seed": seed},
+                          "reproduced": "%d of 5 further repetitions" % again})
+            break
+    summ = {"what": "real concurrency: owner + thieves as free-running OS threads on one deque (no controller, no model); "
+                    "multiset oracle on the implementation only",
+            "configurations": [{"size": n, "thieves": k, "owner_ops": ops, "trypass_percent": pct, "repetitions": reps, "seed": seed}
+                               for (n, k, ops, pct, reps, seed) in cfgs],
+            "runs": len(rows), "operations": sum(r["operations"] for r in rows), "items": sum(r["items"] for r in rows),
+            "handed_out": sum(r["handed"] for r in rows), "remaining": sum(r["remaining"] for r in rows),
+            "duplicates": sum(r["duplicates"] for r in rows), "losses": sum(r["lost"] for r in rows),
+            "bogus": sum(r["bogus"] for r in rows),
+            "trypass_ok": sum(r["trypass_ok"] for r in rows), "trypass_fail": sum(r["trypass_fail"] for r in rows),
+            "recentre_push_memmoves": sum(r["recentre_push"] for r in rows),
+            "recentre_put_memmoves": sum(r["recentre_put"] for r in rows),
+            "pops_null": sum(r["pops_null"] for r in rows), "takes_null": sum(r["takes_null"] for r in rows),
+            "wall_s": round(time.time() - t0, 2)}
+    return summ, fails
+
+
+# ----------------------------------------------------------------------------------------------
+# whole programs under a user steal function that declines (termination clause)
+# ----------------------------------------------------------------------------------------------
+
+PROG_RE = re.compile(r"prog (\w+) workers=(\d+) decline=(\d+)/(\d+) result=(-?\d+) expected=(-?\d+) ok=(\d) attempts=(\d+) "
+                     r"accepted=(\d+) declined=(\d+) peeks=(\d+) hint_ok=(\d+) hint_copied=(\d+) hint_bad=(\d+)")
+
+
+def run_steal_one(b, prog, size, num, den, seed, w, timeout=25):
+    rc, out = vlib.sh([b["steal"], prog, str(size), str(num), str(den), str(seed)], timeout=timeout,
+                      env=dict(os.environ, MYTH_NUM_WORKERS=str(w)))
+    m = PROG_RE.search(out)
+    row = {"program": prog, "size": size, "workers": w, "decline": "%d/%d" % (num, den), "seed": seed, "exit": rc}
+    if m:
+        g = m.groups()
+        row.update({"result": int(g[4]), "expected": int(g[5]), "ok": g[6] == "1", "attempts": int(g[7]), "accepted": int(g[8]),
+                    "declined": int(g[9]), "peeks": int(g[10]), "hint_copied": int(g[12]), "hint_bad": int(g[13])})
+    bad = None
+    if rc == 124:
+        bad = "program %s(%d) under a steal function declining %d/%d did not terminate on %d workers (watchdog %ds)" % (
+            prog, size, num, den, w, timeout)
+    elif rc != 0 or not m or not row.get("ok"):
+        bad = "program %s(%d) under a steal function declining %d/%d on %d workers: exit %d, %s" % (
+            prog, size, num, den, w, rc, (m.group(0) if m else out.strip()[-200:]))
+    return row, bad
+
+
+def run_steal_progs(ctx, b, quick):
+    t0 = time.time()
+    progs = [("fib", 21), ("fanout", 12000), ("yield", 12000)]
+    declines = [(0, 1), (1, 2), (9, 10)]
+    combos = []
+    for w in (1, 2, 3, 4):
+        for (prog, size) in progs:
+            for (num, den) in declines:
+                if quick and w in (1, 3) and (num, den) != (1, 2):
+                    continue
+                combos.append((prog, size, num, den, w))
+    rows, fails = [], []
+    reps = 1 if quick else 4
+    for (prog, size, num, den, w) in combos:
+        for k in range(reps):
+            seed = ctx.rng.rng(1, 1 << 30)
+            row, bad = run_steal_one(b, prog, size, num, den, seed, w)
+            rows.append(row)
+            if bad:
+                again = 0
+                for j in range(2):
+                    r2, bad2 = run_steal_one(b, prog, size, num, den, seed + 1 + j, w, timeout=10)
+                    again += 1 if bad2 else 0
+                fails.append({"what": bad, "steal_case": {"program": prog, "size": size, "decline": [num, den], "workers": w, "seed": seed},
+                              "reproduced": "%d of 2 further repetitions" % again})
+                break
+        if fails:
+            break
+    summ = {"what": "fork-join programs run to completion (free-running, real workers) under myth_wsapi_set_stealfunc with a "
+                    "decision callback declining with probability p; peek called with a real buffer",
+            "runs": len(rows), "workers": sorted(set(r["workers"] for r in rows)),
+            "programs": sorted(set(r["program"] for r in rows)), "decline_probabilities": ["%d/%d" % d for d in declines],
+            "steal_attempts": sum(r.get("attempts", 0) for r in rows), "accepted": sum(r.get("accepted", 0) for r in rows),
+            "declined": sum(r.get("declined", 0) for r in rows), "peeks": sum(r.get("peeks", 0) for r in rows),
+            "hint_copies_checked": sum(r.get("hint_copied", 0) for r in rows), "hint_bad": sum(r.get("hint_bad", 0) for r in rows),
+            "not_terminated_or_wrong": len(fails), "wall_s": round(time.time() - t0, 2)}
+    return summ, fails
+
+
+def unit_event_counts(cases, impl):
+    """from the lock-step snapshots: trypass operations by outcome, and the re-centrings actually performed
+    (the memmove branch: put's POINT wsq.put.recentre fires before the base == 0 test)"""
+    c = {"trypass_ok": 0, "trypass_fail_lock_busy": 0, "trypass_fail_base0": 0,
+         "put_recentre_point": 0, "put_recentre_memmove": 0, "push_recentre_memmove": 0, "push_recentre_abort": 0,
+         "put_recentre_abort": 0}
+    for (kind, case), line in zip(cases, impl):
+        steps, _ = split_impl(line)
+        st = parse_steps(steps)
+        if not st or "mark" in st[0]:
+            continue
+        n = len(st[0]["labels"])
+        prev = ["-"] * n
+        last = None
+        flds = [f.strip() for f in case.split("|")]
+        progs = [flds[1 + i].split() if 1 + i < len(flds) else [] for i in range(n)]
+        nops = [0] * n
+        for s in st:
+            if "mark" in s:
+                if s["mark"].startswith("ABORT") and last is not None:
+                    for q in range(n):
+                        if prev[q].startswith("wsq.push.recentre"):
+                            c["push_recentre_abort"] += 1
+                        if prev[q].startswith("wsq.put.recentre"):
+                            c["put_recentre_abort"] += 1
+                break
+            p = s["who"]
+            if 0 <= p < n and last is not None:
+                before, after = prev[p].split("(")[0], s["labels"][p].split("(")[0]
+                if before == "wsq.put.recentre" and after != before:
+                    c["put_recentre_point"] += 1
+                    if s["top"] != last["top"]:
+                        c["put_recentre_memmove"] += 1
+                if before == "wsq.push.recentre" and after != before:
+                    c["push_recentre_memmove"] += 1
+                if before == "wsq.pass.base" and after != before:
+                    c["trypass_ok"] += 1
+                if before == "wsq.pass.check" and after == "spin.unlock":
+                    c["trypass_fail_base0"] += 1
+            if 0 <= p < n:
+                lab = s["labels"][p]
+                if lab.startswith("ret(") and not prev[p].startswith("ret("):
+                    op = progs[p][nops[p]] if nops[p] < len(progs[p]) else "?"
+                    nops[p] += 1
+                    if op[0] == "S" and lab == "ret(0)" and prev[p].startswith("spin.trylock"):
+                        c["trypass_fail_lock_busy"] += 1
+            prev = list(s["labels"])
+            last = s
+    return c
+
+
 def run_smoke(ctx, b):
     res, fails = [], []
     for w in (1, 2, 3, 4):
@@ -811,6 +1009,10 @@ def run(ctx):
     seq_lines = gen_seq_lines(ctx, 60 if quick else 600)
     sdiffs, sfails, sops = run_seq(ctx, b, seq_lines)
     smoke, smoke_fails = run_smoke(ctx, b)
+    free_summ, free_fails = run_free(ctx, b, quick)
+    steal_summ, steal_fails = run_steal_progs(ctx, b, quick)
+    ev_unit = unit_event_counts(cases, impl)
+    ev_conc = unit_event_counts(ccases, cimpl)
 
     # ---- bounded TSO exploration with the observed table (validation; also the failing-input search) ----
     tso_hit, tso_res = tso_explore(b, tbl, 150000 if quick else 1500000)
@@ -827,7 +1029,10 @@ def run(ctx):
         "library_sequential": {"lines": len(seq_lines), "operations": sops, "disagreements": len(sdiffs),
                                "oracle_failures": len(sfails)},
         "library_smoke": smoke,
+        "trypass_and_recentring_in_lockstep_runs": {"unit": ev_unit, "library_wsapi": ev_conc},
     }
+    ctx.cov["free_running"] = free_summ
+    ctx.cov["steal_function_programs"] = steal_summ
     ctx.cov["fences"] = {"barrier_classes_from_gcc_S": static, "probe_bodies": bodies, "table": tbl,
                          "pinned_table": PINNED, "positions": tdetail,
                          "positions_differing_from_pinned_placement": unexpected_positions,
@@ -840,6 +1045,7 @@ def run(ctx):
         "extraction: ExtrOcamlBasic only; ocaml/driver_C02.ml (case parsing, round-robin completion, BFS explorer), ocaml/zio.ml",
         "harness/c02_wsq_unit.c (token-passing controller on g_myth_verif_cb; includes the real src/myth_wsqueue_func.h; defines real_malloc/real_free)",
         "harness/c02_lib.c (wsapi functions of the real library one call at a time; smoke program)",
+        "harness/c02_wsq_free.c (free-running OS threads on the real header; slot reservation counter keeps the queue below capacity), harness/c02_steal_prog.c (programs under a declining steal function)",
         "translator in tools/props/c02.py: classification of barrier bodies from gcc -S (xchg/mfence/lock = Full), positions from wsq.fence.* EVENTs",
         "modelled, not verified: x86-TSO as store buffers (hardware not exercised); memmove as one block store; the placement of MYTH_VERIF_POINTs as step boundaries",
     ]
@@ -861,7 +1067,17 @@ def run(ctx):
         ctx.violation("oracle-library", msg, {"seq_case": ops, "observed": canon[-1500:], "level": "library (wsapi)"}, found=True)
     if smoke_fails:
         ctx.violation("smoke", smoke_fails[0], {"smoke": smoke, "level": "library"}, found=True)
-    anyfound = bool(fails or sfails or smoke_fails or cfails)
+    if free_fails:
+        f = free_fails[0]
+        ctx.violation("free-running", f["what"], {"free_case": f["free_case"], "level": "unit, real concurrency (several OS threads)",
+                                                  "note": "NOT deterministic (free-running OS threads): re-run the case several times; " + f["reproduced"],
+                                                  "expected": "every inserted item handed out exactly once or still queued"}, found=True)
+    if steal_fails:
+        f = steal_fails[0]
+        ctx.violation("steal-program", f["what"], {"steal_case": f["steal_case"], "level": "library, whole program under a user steal function",
+                                                   "note": "NOT deterministic (free-running workers); " + f["reproduced"],
+                                                   "expected": "the program terminates with the right result: a declined candidate stays available"}, found=True)
+    anyfound = bool(fails or sfails or smoke_fails or cfails or free_fails or steal_fails)
     need_search = (diffs or sdiffs or cdiffs or broken or missed) and not anyfound
     searched = None
     if need_search:
@@ -966,6 +1182,24 @@ def replay(ctx, path):
             if a != m:
                 print("%3d model %s   <-- differs" % (k, m))
         print("oracle:", oracle(c, impl[0] or ""))
+    if "free_case" in body:
+        f = body["free_case"]
+        print("free-running case (not deterministic):", f)
+        hits = 0
+        for j in range(5):
+            rows, bad = run_free_one(b, f["size"], f["thieves"], f["owner_ops"], f["trypass_percent"], 1, f["seed"] + j)
+            print("  repetition %d: %s" % (j, bad or ("ok " + json.dumps(rows[0]) if rows else "no output")))
+            hits += 1 if bad else 0
+        print("reproduced in %d of 5 repetitions" % hits)
+    if "steal_case" in body:
+        f = body["steal_case"]
+        print("steal-function program (not deterministic):", f)
+        hits = 0
+        for j in range(5):
+            row, bad = run_steal_one(b, f["program"], f["size"], f["decline"][0], f["decline"][1], f["seed"] + j, f["workers"], timeout=20)
+            print("  repetition %d: %s" % (j, bad or ("ok " + json.dumps(row))))
+            hits += 1 if bad else 0
+        print("reproduced in %d of 5 repetitions" % hits)
     if "seq_case" in body:
         ops = body["seq_case"]
         if ops.startswith("seq "):
